@@ -36,7 +36,8 @@ pub struct Case02 {
     pub sep: String,
 }
 
-pub const SEPS: &[&str] = &["\n", "\r\n", "\n\n", " ", "\t", "---\n", ";\n"];
+// (a separator is taken literally: a backslash stays a backslash, `\\n` is two characters)
+pub const SEPS: &[&str] = &["\n", "\r\n", "\n\n", " ", "\t", "---\n", ";\n", "\\", ";\\", "\\|", "\\n", "|", ",", "\u{e9}\n", "%s", "="];
 pub const STYLES: &[&str] = &["one-line", "consise", "pretty"];
 
 pub fn strip_ws(row: &[u8]) -> Result<Vec<u8>, String> {
@@ -531,7 +532,7 @@ impl Check for C02ExprRows {
 }
 
 pub fn run_all(ctx: &mut Ctx) {
-    ctx.rule = "cases = 1..3 generated JSON values (full Unicode alphabet, boundary and extreme numbers, nesting up to 64) or expression results (+ - * / on extreme operands, concat, stringify, sum) x style {one-line, consise, pretty, default} x --utf8-strings x 7 row separators; every case is also run in the other styles and fed back as input; non-trivial = a value with nesting >= 2, a non-ASCII/control character, a non-integer or > 2^53 number, or an arithmetic result; distinct = distinct (input, options) by hash".into();
+    ctx.rule = "cases = 1..3 generated JSON values (full Unicode alphabet, boundary and extreme numbers, nesting up to 64) or expression results (+ - * / on extreme operands, concat, stringify, sum) x style {one-line, consise, pretty, default} x --utf8-strings x 16 row separators (white space, punctuation, backslashes, a non-ASCII character); every case is also run in the other styles and fed back as input; non-trivial = a value with nesting >= 2, a non-ASCII/control character, a non-integer or > 2^53 number, or an arithmetic result; distinct = distinct (input, options) by hash".into();
     ctx.assumptions = vec![
         "the harness' strict RFC 8259 reader decides well-formedness and the denoted value".into(),
         "pretty = every element/member and every closing bracket of a non-empty collection on its own line, indentation = depth x one constant unit; empty collections unconstrained".into(),
